@@ -52,6 +52,13 @@ def gen(rnd, tier):
         dcases.append({"b": b + rnd.choice([[], [77], [109], [59, 49, 77]]), "more": rnd.random() < 0.3, "tag": "sgr-malformed"})
         b = [27, 91, 77] + [rnd.randrange(256) for _ in range(rnd.randint(0, 4))]
         dcases.append({"b": b, "more": rnd.random() < 0.3, "tag": "x10-short-or-odd"})
+    # the same report several times in a row (every report is a message of its own), alone and between keys, SGR and X10 mixed
+    for e in [("sgr", 35, 10, 5, False), ("sgr", 32, 1, 1, False), ("sgr", 0, 7, 7, False), ("sgr", 64, 3, 3, False), ("x10", 35, 10, 5), ("x10", 32, 200, 100)]:
+        for n in (2, 3, 5):
+            cases.append(D.stream_case([e] * n, tag="repeated-report"))
+            cases.append(D.stream_case([("runes", [97])] + [e] * n + [("ctl", 13, False)], tag="repeated-report"))
+            cases.append(D.stream_case([e] * n, [len(D.encode(e))], tag="repeated-report"))      # one report per read
+    cases.append(D.stream_case([("sgr", 35, 10, 5, False), ("x10", 35, 10, 5), ("sgr", 35, 10, 5, False)], tag="repeated-report"))
     # a report cut at every position by the end of a full 256-byte read (short and long SGR reports, X10 reports)
     for e in [("sgr", 0, 1, 1, False), ("sgr", 35, 120, 40, False), ("sgr", 64, 223, 223, True), ("sgr", 130, 9999, 5000, False), ("x10", 0, 1, 1), ("x10", 35, 200, 100)]:
         eb = D.encode(e)
